@@ -1,5 +1,6 @@
 """C05 — compression is used only as negotiated and configured."""
 import re
+from collections import defaultdict
 from common import *
 import mirlib
 
@@ -229,51 +230,89 @@ def run_parsers(R, tonic, comp, enabled, tag=''):
         b = tonic.body('decode::StreamingInner::decode_chunk')
         R.saw(b)
         gb, gt = b.call1(name='get_u8')
-        flag_local = gt['dest']['l']
-        sw = [bb for bb in sorted(b.live_blocks()) if b.term(bb)['k'] == 'switch' and mirlib.root_local(b, b.term(bb)['on']) == flag_local]
-        if len(sw) != 1:
-            raise CheckError('UNRECOGNISED: %d switches on the flag byte' % len(sw))
-        edges = b.switch_edges(sw[0])
-        byv = {}
-        for tgt, vals in edges.items():
-            for v in vals:
-                byv[v] = tgt
-        R.eq(sorted(k for k in byv if k != 'else'), [0, 1], 'C05.R6', 'flag-values' + tag, site(b, sw[0]), 'flag values with dedicated arms')
-        # arm 1: is_some(self.encoding) false edge -> Err(Status::internal)
-        comp_local = None
-        errs = [(bb, i, ops) for bb, i, p, a, ops in mirlib.aggregates(b, 'result::Result', 'Err') if p['l'] == 0]
-        one_region = b.reachable(byv.get(1), removed={sw[0]}) if 1 in byv else set()
-        else_region = b.reachable(byv.get('else'), removed={sw[0]}) if 'else' in byv else set()
-        zero_region = b.reachable(byv.get(0), removed={sw[0]}) if 0 in byv else set()
-        only_one = one_region - zero_region - else_region
-        only_else = else_region - zero_region - one_region
-        e1 = [(bb, i, ops) for bb, i, ops in errs if bb in only_one]
-        ee = [(bb, i, ops) for bb, i, ops in errs if bb in only_else]
-        R.check(len(e1) >= 1, 'C05.R6', 'flag1-no-encoding-err' + tag, site(b, sw[0]), 'Err returns private to the flag==1 arm: %d' % len(e1))
-        for bb, i, ops in e1:
-            st = b.origin(ops[0])
-            R.check(is_call(strip_refs(st), pat='Status::internal'), 'C05.R6', 'flag1-internal' + tag, site(b, bb, i), 'status = %s' % show(st)[:120])
-            g = b.edge_guards(bb)
-            R.check(any('is_some' in show(t) and 'encoding' in show(t) and vals == [0] for s, vals, t in g), 'C05.R6', 'flag1-guard-encoding-none' + tag, site(b, bb, i),
-                    'guards: %r' % [(v, show(t)[:60]) for s, v, t in g])
-        R.check(len(ee) >= 1, 'C05.R6', 'flag-other-err' + tag, site(b, sw[0]), 'Err returns private to the other-flag arm: %d' % len(ee))
-        for bb, i, ops in ee:
-            st = b.origin(ops[0])
-            R.check(is_call(strip_refs(st), pat='Status::internal'), 'C05.R6', 'flag-other-internal' + tag, site(b, bb, i), 'status = %s' % show(st)[:120])
-        # flag 0 -> compression None; flag 1 (encoding Some) -> self.encoding
+        fterm = b.origin({'cp': gt['dest']})
+        fsub = show(strip_casts(fterm))
+        errs = [(bb, i, ops) for bb, i, p, a, ops in mirlib.aggregates(b, 'result::Result', 'Err')]
         rb = [x for x in mirlib.aggregates(b, 'decode::State', 'ReadBody')]
         R.check(len(rb) == 1, 'C05.R6', 'readbody-site' + tag, site(b), 'State::ReadBody constructions: %d' % len(rb))
-        if rb:
-            bb, i, p, a, ops = rb[0]
-            fields = a['fields']
-            cl = mirlib.root_local(b, ops[fields.index('compression')])
-            ws = {wb: block_writes(b, wb, cl) for wb in writers_of(b, cl)}
-            for wb, w in ws.items():
-                if wb in zero_region - one_region:
-                    R.check(w[0][0] == 'variant' and w[0][2] == 'None', 'C05.R6', 'flag0->identity' + tag, site(b, wb), 'compression for flag 0 = %r' % (w[0][:3],))
-                elif wb in only_one:
-                    R.check(w[0][0] == 'term' and mentions_field(w[0][1], 'encoding'), 'C05.R6', 'flag1->self.encoding' + tag, site(b, wb), 'compression for flag 1 = %s' % show(w[0][1] if w[0][0] == 'term' else ('agg',)))
-            R.floor('C05.R6', 'compression writers' + tag, len(ws), 2)
+        if not rb:
+            raise CheckError('ANCHOR-MISSING: State::ReadBody is not built in decode_chunk')
+        rbb, rbi, rbp, rba, rbops = rb[0]
+
+        def is_flag(sub):
+            return sub == fsub
+
+        def is_enc(sub):
+            return sub.count('(') <= 3 and len(sub) < 140 and sub.rstrip(')').endswith('.encoding') and ('discr(' in sub or 'is_some' in sub or 'is_none' in sub)
+
+        def row_of(cons):
+            """(flag class, encoding class) of a path: flag in {0, 1, 'other', None(unconstrained)}; encoding in {'some','none',None}"""
+            fl, en = None, None
+            for sub, op, v in cons:
+                if is_flag(sub):
+                    if op == '==':
+                        fl = v
+                    elif op == 'notin' and set(v) >= {0, 1}:
+                        fl = 'other'
+                    elif op == '!=' and fl is None:
+                        fl = fl
+                elif is_enc(sub):
+                    truthy = (op == '==' and v not in (0, False)) or (op == '!=' and v in (0, False)) or (op == 'notin' and 0 in v)
+                    falsy = (op == '==' and v in (0, False)) or (op == '!=' and v not in (0, False))
+                    pos = 'is_none' not in sub
+                    if truthy:
+                        en = 'some' if pos else 'none'
+                    elif falsy:
+                        en = 'none' if pos else 'some'
+            return fl, en
+
+        def status_kind(ops_):
+            st = strip_refs(b.origin(ops_[0]))
+            return 'internal' if is_call(st, pat='Status::internal') else ('out_of_range' if is_call(st, pat='Status::out_of_range') else show(st)[:40])
+        eff = {bb: ('err', status_kind(ops)) for bb, i, ops in errs}
+        eff[rbb] = ('readbody', None)
+        rows = decision_rows(b, gt['t'], set(eff), relevant=lambda sub: is_flag(sub) or is_enc(sub))
+        table = defaultdict(set)
+        for cons, ebb in rows:
+            table[row_of(cons)].add(eff[ebb])
+        R.note('decode_chunk flag rows: %r' % {str(k): sorted(map(str, v)) for k, v in table.items()})
+        flags_seen = {k[0] for k in table}
+        R.check({0, 1, 'other'} <= flags_seen and None not in flags_seen, 'C05.R6', 'flag-values' + tag, site(b, gb), 'every path after the flag byte is read decides it as 0, 1 or other: %r' % sorted(map(str, flags_seen)))
+        # flag 1 without a negotiated encoding -> INTERNAL, never a message
+        f1none = set().union(*[v for k, v in table.items() if k[0] == 1 and k[1] in ('none', None)]) if any(k[0] == 1 and k[1] in ('none', None) for k in table) else set()
+        R.check(('err', 'internal') in f1none, 'C05.R6', 'flag1-no-encoding-err' + tag, site(b, gb), 'flag 1 with no negotiated encoding ends in Err(Status::internal): outcomes %r' % sorted(f1none))
+        R.check(('readbody', None) not in f1none and all(x == ('err', 'internal') for x in f1none), 'C05.R6', 'flag1-guard-encoding-none' + tag, site(b, gb), 'flag 1 with no negotiated encoding never reaches ReadBody: outcomes %r' % sorted(map(str, f1none)))
+        fo = set().union(*[v for k, v in table.items() if k[0] == 'other']) if any(k[0] == 'other' for k in table) else set()
+        R.check(fo == {('err', 'internal')}, 'C05.R6', 'flag-other-err' + tag, site(b, gb), 'a flag other than 0/1 only ends in Err(Status::internal): outcomes %r' % sorted(map(str, fo)))
+        for k, v in table.items():
+            if k[0] in (0, 1) and not (k[0] == 1 and k[1] in ('none', None)):
+                R.check(('readbody', None) in v and all(x[0] == 'readbody' or x == ('err', 'out_of_range') for x in v), 'C05.R6', 'flag%s-accepted%s' % (k[0], tag), site(b, gb), 'flag %s (encoding %s) leads to ReadBody (or the size refusal): %r' % (k[0], k[1], sorted(map(str, v))))
+        # the value stored as ReadBody.compression: None on the flag-0 paths, self.encoding on the flag-1 paths
+        fields = rba['fields']
+        comp = mirlib.simplify(b.origin(rbops[fields.index('compression')]))
+        if not (comp and comp[0] == 'phi' and len(comp) > 2 and isinstance(comp[2], int)):
+            raise CheckError('UNRECOGNISED: ReadBody.compression is not chosen per flag value: %s' % show(comp)[:120])
+        cl = comp[2]
+        nw = 0
+        for wb in writers_of(b, cl):
+            for w in block_writes(b, wb, cl):
+                if w[0] == 'variant':
+                    val = ('agg', {'variant': w[2]}, w[3])
+                elif w[0] == 'term':
+                    val = mirlib.simplify(w[1])
+                else:
+                    val = ('?',)
+                kind = 'none' if (val[0] == 'agg' and val[1].get('variant') == 'None') else ('encoding' if mentions_field(val, 'encoding') else '?')
+                wrows = decision_rows(b, gt['t'], {wb}, relevant=is_flag)
+                fl = {row_of(c)[0] for c, _ in wrows}
+                nw += 1
+                if kind == 'none':
+                    R.check(fl == {0}, 'C05.R6', 'flag0->identity' + tag, site(b, wb), 'compression = None is chosen exactly on the flag-0 paths: flags %r' % sorted(map(str, fl)))
+                elif kind == 'encoding':
+                    R.check(fl == {1}, 'C05.R6', 'flag1->self.encoding' + tag, site(b, wb), 'compression = self.encoding is chosen exactly on the flag-1 paths: flags %r' % sorted(map(str, fl)))
+                else:
+                    R.bad('C05.R6', 'compression-sources' + tag, site(b, wb), 'ReadBody.compression can be %s: neither None nor self.encoding' % show(val)[:100])
+        R.floor('C05.R6', 'compression writers' + tag, nw, 2)
 
     # ---------------------------------------------------------------- R7 per-message opt-out
     R.describe('C05.R7', 'EncodedBytes::new: SingleMessageCompressionOverride::Disable clears the encoding before it is stored or used to size buffers')
